@@ -191,7 +191,7 @@ def check_progress(out, facts):
     n = 0
     for f, kind in decoder_fns(facts):
         t, v, ev = wire.infer_decoder_fn(facts, f)
-        own = abstract_helpers(t, {'decode_vec_from_items'} if tname(f['path']) == 'decode_vec_with_len' else {'decode_vec_with_len'})
+        own = abstract_helpers(t, {role_name(facts, 'items')} if tname(f['path']) == 'decode_vec_with_len' else {'decode_vec_with_len'})
         for x in sym.walk(own):
             if x[0] != 'star':
                 continue
@@ -212,7 +212,7 @@ def check_progress(out, facts):
             ml = minlen_known(w)
             # maps/sets keyed by a zero-length key collapse to one entry: memory stays bounded
             dedup = any(('BTreeMap' in c[1] or 'BTreeSet' in c[1]) for c in coll)
-            key = '%s / element may encode to zero bytes' % fkey(f)
+            key = '%s / element may encode to zero bytes' % stable_fkey(facts, f)
             ok = (ml is not None and ml >= 1) or dedup
             out.ob('R09.4', key, ok,
                    'count-driven loop retains one element of type %s per iteration but an element may consume no input (shape %s): memory is then '
